@@ -39,8 +39,11 @@ func (v c12Variant) render() string {
 	var sb strings.Builder
 	sb.WriteString("//go:build convergen\n\npackage home\n\n")
 	if v.UseA {
-		sb.WriteString("import am \"example.com/m/a/model\"\n\n")
+		sb.WriteString("import (\n\tam \"example.com/m/a/model\"\n\t\"example.com/m/ext\"\n)\n\n")
+	} else {
+		sb.WriteString("import \"example.com/m/ext\"\n\n")
 	}
+	sb.WriteString("type WithExtra struct {\n\tA     int64\n\tExtra int\n}\n\n")
 	fmt.Fprintf(&sb, "type A struct {\n\tX %s\n\tY string\n\tZ []int\n}\n\n", v.TA)
 	fmt.Fprintf(&sb, "type B struct {\n\tX %s\n\tY string\n\tZ []int\n}\n\n", v.TB)
 	sb.WriteString("type Convergen interface {\n")
@@ -54,6 +57,7 @@ func (v c12Variant) render() string {
 		sb.WriteString("\t// :typecast\n\tConvertModelA(*am.T) *SibD\n")
 	}
 	sb.WriteString("\t// :typecast\n\tConvertSibling(*SibS) *SibD\n")
+	sb.WriteString("\t// :getter\n\tConvertFromDependency(*ext.Inner2) *WithExtra\n")
 	if v.BadNote {
 		sb.WriteString("\t// :style sideways\n\tConvertRejected(*A) *B\n")
 	}
@@ -64,6 +68,14 @@ func (v c12Variant) render() string {
 
 // c12Sibling is an ordinary file of the package: its struct uses a type of b/model, a package the setup
 // file never imports (its qualifier in the generated code comes from the sibling-only import handling).
+// c12DepNamedLikeOutput is a file of the imported package ext whose base name equals the output's
+// (setup.gen.go); it declares a getter that ":getter" matches. Identity of the output file is its path, not
+// its base name.
+const c12DepNamedLikeOutput = `package ext
+
+func (i Inner2) Extra() int { return i.D }
+`
+
 const c12Sibling = `package home
 
 import bm "example.com/m/b/model"
@@ -219,7 +231,7 @@ func corruptionClass(pre *string, clean map[string]bool) string {
 func c12Judge(env *hx.Env, m c12Meta, rec *hx.Recorder) (hx.Verdict, int) {
 	root := env.Scratch("hist")
 	defer os.RemoveAll(root)
-	base := (&pg.Prog{}).Files().Set("home/sib.go", c12Sibling)
+	base := (&pg.Prog{}).Files().Set("home/sib.go", c12Sibling).Set("ext/setup.gen.go", c12DepNamedLikeOutput)
 	base = removeFile(base, pg.SetupPath)
 	if err := hx.WriteTree(root, base); err != nil {
 		return hx.Failf("harness|io", "%v", err), 0
@@ -357,7 +369,7 @@ func TestC12(t *testing.T) {
 
 	// clean output of a variant (run in an empty directory)
 	cleanOut := func(setup string) (string, bool) {
-		o, err := pg.RunModule(env, (&pg.Prog{}).Files().Set("home/sib.go", c12Sibling).Set(pg.SetupPath, setup))
+		o, err := pg.RunModule(env, (&pg.Prog{}).Files().Set("home/sib.go", c12Sibling).Set("ext/setup.gen.go", c12DepNamedLikeOutput).Set(pg.SetupPath, setup))
 		if err != nil {
 			return "", false
 		}
